@@ -281,7 +281,8 @@ macro_rules! impl_derivatives {
             #[inline]
             fn sph_j0(&self) -> Self {
                 if self.re().abs() < F::epsilon() {
-                    Self::one() - self * self / F::from(6.0).unwrap()
+                    let s2 = self * self;
+                    Self::one() - s2.clone() / F::from(6.0).unwrap() + &s2 * &s2 / F::from(120.0).unwrap()
                 } else {
                     self.sin() / self
                 }
@@ -290,7 +291,7 @@ macro_rules! impl_derivatives {
             #[inline]
             fn sph_j1(&self) -> Self {
                 if self.re().abs() < F::epsilon() {
-                    self.clone() / F::from(3.0).unwrap()
+                    self.clone() / F::from(3.0).unwrap() - self * self * self / F::from(30.0).unwrap()
                 } else {
                     let (s, c) = self.sin_cos();
                     (s - self * c) / (self * self)
@@ -300,7 +301,8 @@ macro_rules! impl_derivatives {
             #[inline]
             fn sph_j2(&self) -> Self {
                 if self.re().abs() < F::epsilon() {
-                    self * self / F::from(15.0).unwrap()
+                    let s2 = self * self;
+                    s2.clone() / F::from(15.0).unwrap() - &s2 * &s2 / F::from(210.0).unwrap()
                 } else {
                     let (s, c) = self.sin_cos();
                     let s2 = self * self;
